@@ -19,8 +19,8 @@ N == Len(Rec)
 
 CONSTANT KnownMask
 
-VARIABLES l, prev, g, m, viol, known, drift, stats
-vars == <<l, prev, g, m, viol, known, drift, stats>>
+VARIABLES l, prev, g, m, viol, known, drift, stats, thr
+vars == <<l, prev, g, m, viol, known, drift, stats, thr>>
 
 SetOf(seq) == {seq[i] : i \in 1..Len(seq)}
 TaskOf(j) == IF j.kind = "W" THEN [kind |-> "W", k |-> j.k, v |-> j.v]
@@ -40,7 +40,7 @@ Known == {"Reset", "Skipped", "PutVerified", "Remove", "RunTask", "HandleNote", 
 
 \* position of the released body in the observed list of parked bodies before the step
 StepOf(e) == [ev |-> e.ev, s |-> prev, r |-> [st |-> Obs(e), res |-> e.res, out |-> e.out], g |-> g, g2 |-> 0, rb |-> RbOf(e),
-              k |-> e.k, v |-> e.v, i |-> e.i, ni |-> e.ni, rg |-> e.rg]
+              k |-> e.k, v |-> e.v, i |-> e.i, ni |-> e.ni, rg |-> e.rg, thr |-> thr]
 
 \* ---- the model run alongside (drift)
 Observables(s) == [idx |-> s.idx, byDist |-> s.byDist, far |-> s.far, cache |-> CacheKeys(s.cache),
@@ -55,27 +55,27 @@ ObservedOf(e) == [idx |-> SetOf(e.idx), byDist |-> SetOf(e.byDist), far |-> e.fa
                   range |-> e.range, pay |-> e.pay, rb |-> RbOf(e)]
 \* the model step for line e from model state ms: released body = same position; note = same kind/key/value
 ModelStep(ms, e) ==
-    LET x == [ev |-> e.ev, s |-> ms, k |-> e.k, v |-> e.v, i |-> e.i, rg |-> e.rg, ni |-> e.ni]
+    LET x == [ev |-> e.ev, s |-> ms, k |-> e.k, v |-> e.v, i |-> e.i, rg |-> e.rg, ni |-> e.ni, thr |-> thr]
     IN IF e.ev = "RunTask" /\ (e.i < 1 \/ e.i > Len(ms.tasks)) THEN {}
        ELSE IF e.ev = "HandleNote" /\ (e.ni < 1 \/ e.ni > Len(ms.notes)) THEN {}
        ELSE ModelResults(x)
 
 Init == /\ l = 1 /\ prev = Obs0 /\ g = Ghost0 /\ m = [ok |-> TRUE, st |-> Init0]
-        /\ viol = {} /\ known = {} /\ drift = {} /\ stats = [steps |-> 0, settled |-> 0, puts |-> 0]
+        /\ viol = {} /\ known = {} /\ drift = {} /\ stats = [steps |-> 0, settled |-> 0, puts |-> 0] /\ thr = Threshold
 Next ==
     /\ l <= N
     /\ l' = l + 1
     /\ LET e == Rec[l] IN
        IF e.ev \notin Known \/ (e.ev \notin {"Reset", "Skipped"} /\ e.res = "NotFinished") THEN
             /\ viol' = viol \cup {[clause |-> "Malformed", line |-> l, w |-> 0]}
-            /\ UNCHANGED <<prev, g, m, known, drift, stats>>
+            /\ UNCHANGED <<prev, g, m, known, drift, stats, thr>>
        ELSE IF e.ev = "Reset" THEN
-            /\ prev' = Obs0 /\ g' = Ghost0 /\ m' = [ok |-> TRUE, st |-> Init0]
+            /\ prev' = Obs0 /\ g' = Ghost0 /\ m' = [ok |-> TRUE, st |-> Init0] /\ thr' = e.threshold
             /\ UNCHANGED <<viol, known, drift, stats>>
        ELSE IF e.ev = "Skipped" THEN
             \* the behaviour prescribed a body / note the real store does not have: drift, no step
             /\ drift' = drift \cup {l} /\ m' = [ok |-> FALSE, st |-> m.st]
-            /\ UNCHANGED <<prev, g, viol, known, stats>>
+            /\ UNCHANGED <<prev, g, viol, known, stats, thr>>
        ELSE LET x1 == StepOf(e)
                 g2 == GhostNext(g, x1)
                 x == [x1 EXCEPT !.g2 = g2]
@@ -87,6 +87,7 @@ Next ==
                /\ known' = known \cup {[kf |-> y.kf, clause |-> y.clause, line |-> l, w |-> y.w] : y \in {z \in vs : z.kf \in KnownMask}}
                /\ m' = IF mr # {} THEN [ok |-> TRUE, st |-> (CHOOSE r \in mr : TRUE).st] ELSE [ok |-> FALSE, st |-> m.st]
                /\ drift' = IF m.ok /\ mr = {} THEN drift \cup {l} ELSE drift
+               /\ UNCHANGED thr
                /\ stats' = [steps |-> stats.steps + 1,
                             settled |-> stats.settled + (IF Settled(Obs(e)) THEN 1 ELSE 0),
                             puts |-> stats.puts + (IF e.ev = "PutVerified" THEN 1 ELSE 0)]
